@@ -57,7 +57,7 @@ def main():
         # ---- F
         g = vlib.tlc("store", "GPStoreGen", "GPStoreGen.cfg", scratch=sc, timeout=1200)
         vlib.expect_tlc_ok(g, "GPStoreGen")
-        behs = g.traces
+        behs = sorted(g.traces, key=lambda b: json.dumps(b, sort_keys=True))   # TLC prints in worker order
         vlib.require(len(behs) >= 1000, "generator produced too few histories (%d)" % len(behs))
         run.add_tlc(g, "GPStoreGen")
         if thorough:
